@@ -363,10 +363,10 @@ pub(crate) mod verif_dec {
         let key = [0x11u8; 32];
         let res = decrypt_chunks(&mut r, &mut w, &key, aad, cs as u32);
         assert!(!r.inner.limit, "[LIMIT] read-call structure outside what this harness models");
-        assert!(!w.unauth && !w.wrong && unsafe { OPEN_ORDER_OK }, "[C04,C01] only authenticated chunks are written, whole and in order");
+        assert!(!w.unauth && !w.wrong && unsafe { OPEN_ORDER_OK }, "[C04,C01,C02] only authenticated chunks are written, whole and in order");
         if extra == 0 {
-            assert!(res.is_ok(), "[C01,C06] every file conforming to the documented format decrypts successfully, whatever its chunking and counter fields");
-            assert!(w.released == n && w.len == plen, "[C01,C06] ... to exactly its plaintext");
+            assert!(res.is_ok(), "[C01,C02,C06] every file conforming to the documented format decrypts successfully, whatever its chunking and counter fields");
+            assert!(w.released == n && w.len == plen, "[C01,C02,C06] ... to exactly its plaintext");
             assert!(w.flushed_len == w.len, "[C10,C12] and everything has been flushed");
         } else {
             assert!(matches!(res, Err(DecryptError::UnexpectedData)), "[C03,C04] bytes after the final chunk are reported as UnexpectedData");
@@ -404,8 +404,8 @@ pub(crate) mod verif_dec {
         let mut w = PSink::new();
         let key = [0x11u8; 32];
         let res = decrypt_chunks(&mut r, &mut w, &key, &[], 1);
-        assert!(res.is_ok(), "[C10,C01] short reads are harmless: decryption succeeds");
-        assert!(!w.unauth && !w.wrong && w.released == 1 && w.len == plen, "[C10,C01] ... with exactly the plaintext");
+        assert!(res.is_ok(), "[C10,C01,C02] short reads are harmless: decryption succeeds");
+        assert!(!w.unauth && !w.wrong && w.released == 1 && w.len == plen, "[C10,C01,C02] ... with exactly the plaintext");
         kani::cover!(r.calls > 6);
         kani::cover!(plen == 1);
         core::mem::forget(res);
@@ -549,7 +549,7 @@ pub(crate) mod verif_hdr_dec {
                 assert!(ND.n == 0 && DC.0 == 0 && P_WRITES == 0 && P_FLUSHES == 0, "[C13] nothing is written for a truncated header");
             } else {
                 assert!(ND.n == 1 && ND.consumed_at_call == 132, "[C06] exactly the 132-byte header is read before the handshake is processed");
-                assert!(ND.r == r && ND.rpk == rpk, "[C05,C01] the handshake is processed with the caller's recipient key pair");
+                assert!(ND.r == r && ND.rpk == rpk, "[C05,C01,C02] the handshake is processed with the caller's recipient key pair");
                 assert!(ND.plen == 4 && ND.prologue == [0x65, 0x67, 0x6b, 0x10], "[C06] the prologue is the 4 magic bytes read from the file");
                 let mut ok = ND.mlen == 128;
                 let mut j = 0;
@@ -559,12 +559,12 @@ pub(crate) mod verif_hdr_dec {
                     assert!(matches!(res, Err(DecryptError::Other(_))), "[C05,C03] a handshake that does not verify is an error");
                     assert!(DC.0 == 0 && P_WRITES == 0 && P_FLUSHES == 0, "[C13,C04,C05] nothing is written or flushed when the handshake fails");
                 } else {
-                    assert!(HK.0 == 1 && HK.1 == 0 && HK.3 == 32 && HK.2 == ND_PAYLOAD && HK.5 == 32 && HK.4 == ND_HH && HK.6 == 32, "[C06,C01] file key = HKDF-SHA256(salt empty, ikm = payload key, info = handshake hash, 32)");
-                    assert!(DC.0 == 1 && DC.2 == 32 && DC.1 == HK_OUT && DC.4 == 0 && DC.5 == 65536, "[C06,C01,C09] chunks are opened under the file key, empty aad, chunk size 65536");
+                    assert!(HK.0 == 1 && HK.1 == 0 && HK.3 == 32 && HK.2 == ND_PAYLOAD && HK.5 == 32 && HK.4 == ND_HH && HK.6 == 32, "[C06,C01,C02] file key = HKDF-SHA256(salt empty, ikm = payload key, info = handshake hash, 32)");
+                    assert!(DC.0 == 1 && DC.2 == 32 && DC.1 == HK_OUT && DC.4 == 0 && DC.5 == 65536, "[C06,C01,C02,C09] chunks are opened under the file key, empty aad, chunk size 65536");
                     assert!(DC.6 == 132 && DC.7 == 0, "[C04,C13] the chunk loop starts right after the header; nothing was written or flushed before it");
                     match &res {
-                        Ok(sender) => { assert!(!cfail && sender.as_bytes() == &ND_SENDER[..], "[C01,C05,C12] success only if every chunk verified; the reported sender is the key the handshake authenticated"); }
-                        Err(_) => { assert!(cfail, "[C01] failure only if the chunk loop failed"); }
+                        Ok(sender) => { assert!(!cfail && sender.as_bytes() == &ND_SENDER[..], "[C01,C02,C05,C12] success only if every chunk verified; the reported sender is the key the handshake authenticated"); }
+                        Err(_) => { assert!(cfail, "[C01,C02] failure only if the chunk loop failed"); }
                     }
                 }
             }
